@@ -53,12 +53,15 @@ def main():
     if kani_hs:
         import kani_engine
         obligations += kani_engine.run_property(pid, kani_hs, a.tier, seed)
-    mir_jobs = spec.get("mir", [])
+    mjobs = []
+    if spec.get("mir"):
+        import mir_jobs
+        mjobs = list(mir_jobs.JOBS.get(pid, []))
     if a.only:
-        mir_jobs = [j for j in mir_jobs if a.only in j["name"]]
-    if mir_jobs:
+        mjobs = [j for j in mjobs if a.only in j.name]
+    if mjobs:
         import mir_engine
-        obligations += mir_engine.run_property(pid, mir_jobs, a.tier, seed)
+        obligations += mir_engine.run_property(pid, mjobs, a.tier, seed)
 
     known, fixed = load_known_findings()
     known = [k for k in known if k["property"] == pid]
